@@ -1,6 +1,7 @@
 (* C04 - The fid table follows the protocol history exactly.
    Property theorems only (each closed by [exact] of a lemma proved elsewhere, followed by Print Assumptions). *)
 From Coq Require Import NArith ZArith List Bool.
+From V9 Require Shape.ShapeLib Shape.PSeq.
 From V9 Require Import Lib.GoSem Lib.Bytes Gen.Consts Codec.Msg Srv.Seq Srv.SeqSpec Srv.SeqProofs.
 Import ListNotations.
 Local Open Scope N_scope.
@@ -86,3 +87,10 @@ Example C04_nonvacuous :
   map fst (c_fids c) = [0] /\ map snd out = [[EvFwd (Tattach_ 0 c_NOFID [] [] 5) 0 5]; [EvFwd (Twalk_ 0 1 [[97]]) 0 5];
                                                [EvFwd (Tclunk_ 1) 1 5; EvDestroy 1]].
 Proof. vm_compute. split; reflexivity. Qed.
+
+
+(* ---- a modelling assumption about the shape of the CURRENT source (Gen/Shape.v), re-checked on every run ---- *)
+(* every refusal of walk / open / create precedes the change of the fid table or of the fid; walkPost compares the fid numbers before it retains *)
+Theorem C04_source_handlers_check_before_they_change : ShapeLib.handlers_check_before_they_change = true.
+Proof. exact PSeq.handlers_check_before_they_change_ok. Qed.
+Print Assumptions C04_source_handlers_check_before_they_change.
